@@ -342,13 +342,18 @@ def c09(sc, io):
                     for rr in newly:
                         a = rr.get("adj")
                         if a:
-                            own = adj0.get(o["sel"]) or 0
+                            own = next((rr2.get("adj") for rr2 in upd["runners"] if rr2["id"] == o["sel"]), None) or 0    # the runner's factor in THIS book
                             expl *= (1 - Fraction(a, 10000 - own)) if mtype == "WIN" else Fraction(10000 - a, 10000)
                 if not raises(newly) and abs(Fraction(o["liab"]).limit_denominator(10**9) - expl) > Fraction(1, 10**6):
                     earlier = [(m2, s2) for (m2, s2), uu in removed_seen.items() if any(s2 == rr["id"] for rr in newly) and m2 != mi]
                     kind = "C09-applied-again" if not newly else ("C09-once-across-markets" if earlier else "C09-moc-liability")
                     res.append((kind, "market-on-close LAY liability of %s is %s after this update, expected %s (factors %s, own factor %s, %s market)" % (
                         o["o"], o["liab"], float(expl), [rr.get("adj") for rr in newly], adj0.get(o["sel"]), mtype), det))
+            # the reported average is the volume-weighted price of the fragments as they are now (also after a re-pricing and a later fill)
+            if o["otype"] == "LIMIT" and fr and C(o["matched"]) > 0:
+                num = sum(Fraction(p_, 10000) * s_ for _, p_, s_ in fr); den = sum(s_ for _, _, s_ in fr)
+                if den > 0 and abs(Fraction(str(o["avg"])) - num / den) > Fraction(51, 10000):
+                    res.append(("C09-average-not-the-fragments", "average matched price of %s is %s, its fragments %s give %.4f" % (o["o"], o["avg"], o["frags"], float(num / den)), det))
             # later updates: prices of old fragments must not change again (applied once)
             if not newly and before is not None and before["frags"] and len(fr) >= len(before["frags"]):
                 if [f[1] for f in fr[:len(before["frags"])]] != [f[1] for f in before["frags"]]:
@@ -499,6 +504,17 @@ def c03(sc, io):
                 done[key] = (C(o["matched"]), C(o["voided"]))
             elif o["complete"] and o["status"] != "Violation" and o["persist"] != "MARKET_ON_CLOSE":
                 done[key] = (C(o["matched"]), C(o["voided"]))
+    # at most one operation outstanding: an order is handed to the execution layer at most once per strategy call (after a request its status
+    # is transient and every further request is refused), so it appears in at most one package created at that instant
+    seen_pk = {}
+    for p in io["packages"]:
+        for name in p["orders"]:
+            k = (name, p["created"])
+            if k in seen_pk:
+                res.append(("C03-two-operations-outstanding", "order %s was handed to the execution layer twice at %s: a %s package and a %s package" % (name, p["created"], seen_pk[k], p["kind"]),
+                            {"order": name, "created": p["created"], "kinds": [seen_pk[k], p["kind"]]}))
+            else:
+                seen_pk[k] = p["kind"]
     # requests: accepted only on an order resting executable; otherwise an error and no side effects
     for r in io["requests"]:
         if r[3] not in ("cancel", "update", "replace") or len(r) < 7 or "before" not in r[6]:
